@@ -166,7 +166,9 @@ def closeBytes' : Bytes :=
   [0xf0, 0x06, 0x80, 0x06, 1, 2, 3, 6, 0xe0, 0x03, 0, 0x62, 0, 0x72, 0x63, 0x02, 0x01, 0x71, 0x01,
    0x63, 0x0c, 0xc3, 0x00]
 
-def sampleBytes : Bytes := openBytes ++ listBytes ++ closeBytes
+def sampleBytes : Bytes := openBytes ++ (listBytes ++ closeBytes)
+
+def sampleBytes' : Bytes := openBytes ++ (listBytes ++ closeBytes')
 
 /-! The encodings are proved valid from the grammar alone (`Gram.mk_*` are the introduction rules
     of the relations, i.e. unfoldings of their definitions); the parsers are not involved. -/
@@ -243,6 +245,8 @@ theorem sample_entry3_enc : EncListEntry sampleEntry3
   exact Gram.mk_listEntry (x := sampleEntry3) (tl := [0x77]) rfl nm (Gram.mk_none _)
     (Gram.mk_none _) (Gram.mk_none _) (Gram.mk_none _) vl (Gram.mk_none _)
 
+-- (`maxRecDepth`: the kernel evaluates the CRC fold over 130 bytes as one nested term)
+set_option maxRecDepth 100000 in
 theorem sample_list_enc : EncMessage sampleList listBytes := by
   have o1 : EncOctet [1, 2, 3, 5] [0x05, 1, 2, 3, 5] := Gram.mk_octet [0x05] _ rfl
   have tag : EncUnsigned 4 0x0701 [0x63, 0x07, 0x01] :=
@@ -294,20 +298,25 @@ theorem sample_file_enc : EncFile sampleFile sampleBytes :=
   Gram.mk_file (.cons sample_open_enc (.cons sample_list_enc (.cons sample_close_enc .nil)))
 
 /-- ... and by a second, different encoding of the same file -/
-theorem sample_file_enc' : EncFile sampleFile (openBytes ++ listBytes ++ closeBytes') :=
+theorem sample_file_enc' : EncFile sampleFile sampleBytes' :=
   Gram.mk_file (.cons sample_open_enc (.cons sample_list_enc (.cons sample_close_enc' .nil)))
 
 -- the conclusions, evaluated independently of the theorems
-example : parseFile sampleBytes = .ok sampleFile := by decide +kernel
-example : parseFile (openBytes ++ listBytes ++ closeBytes') = .ok sampleFile := by decide +kernel
-example : sampleBytes ≠ openBytes ++ listBytes ++ closeBytes' := by decide
-example : sampleBytes.length = 157 := by decide
+set_option maxRecDepth 100000 in
+example : (parseFile sampleBytes).toOption = some sampleFile := by decide +kernel
+set_option maxRecDepth 100000 in
+example : (parseFile sampleBytes').toOption = some sampleFile := by decide +kernel
+example : sampleBytes ≠ sampleBytes' := by decide +kernel
+example : sampleBytes.length = 154 ∧ sampleBytes'.length = 157 := by decide +kernel
 -- streaming parser: 1 + (1 + 3 + 1) + 1 events, reassembled to the three messages
+set_option maxRecDepth 100000 in
 example : (C09.events sampleBytes).length = 7 := by decide +kernel
+set_option maxRecDepth 100000 in
 example : ((C09.evsOf (C09.events sampleBytes)).bind reassemble) = some sampleFile.messages := by
   decide +kernel
 -- instances of the theorems
 example : parseFile sampleBytes = .ok sampleFile := complete _ _ sample_file_enc
+example : parseFile sampleBytes' = .ok sampleFile := complete _ _ sample_file_enc'
 example : parseMessage (closeBytes' ++ [0xde, 0xad]) = .ok (sampleClose, [0xde, 0xad]) :=
   complete_message _ _ _ sample_close_enc'
 
